@@ -203,7 +203,7 @@ def handle (line : String) : String :=
   | ["exitdisc", b, p1, p2, p3] =>
     -- phases: comma separated tokens, letter W/E/X/D (severity), then s (with symbol) or p (plain), optional f (buffer full); "-" = nothing
     let codeOf (sev : Nat) : Nat :=
-      ((List.range exitDiscCfg.sevs.length).find? (fun i => i != exitDiscCfg.subordinate && exitDiscCfg.sevs.getD i 0 == sev)).getD 0
+      ((List.range exitDiscCfg.sevs.length).find? (fun i => i != 0 && i != exitDiscCfg.subordinate && exitDiscCfg.sevs.getD i 0 == sev)).getD 0
     let evOf (t : String) : Option Ev :=
       match t.toList with
       | l :: m :: rest =>
@@ -215,6 +215,15 @@ def handle (line : String) : String :=
     | (st, some (.exited n)) => s!"exit {n} printed {st.printed} pending {st.pending} trailer {st.trailer} err {st.errIssued}"
     | (st, some .aborted) => s!"abort printed {st.printed} pending {st.pending}"
     | (_, none) => "no-end"
+  | ["renamering", n, closed] =>
+    -- n schemas, schema i imports the item from schema i+1 by name (`USE FROM s(i+1) (x)`); closed = the last imports from the first
+    match n.toNat? with
+    | some k =>
+      let g : ImportGraph := ⟨fun _ => [], fun s => if s + 1 < k || closed == "1" then [s] else [], fun r => (r + 1) % k⟩
+      match renameResolve renameResolveMarkFirst renameSearchPathGuard g (k * (k + 2) + 1) [] 0 with
+      | some m => s!"returns seen={m.length}"
+      | none => "never-returns"
+    | none => "bad-op"
   | ["exitsites"] =>
     s!"fallback={usageFallback} sites={exitSites.map (fun x => (x.1, x.2.1, x.2.2))}"
   | ["config"] =>
